@@ -28,7 +28,8 @@ RULE = (
     "(thread, run length) segments (remainder sequential); oracle: no thread raises and every converter reproduces the "
     "battery outcomes of a sequentially created reference converter (computed in a separate fresh child). (B) histories "
     "(RuleBasedStateMachine, each history executed in a pristine forked process): create(fresh | Converter("
-    "detailed_validation=b) | GenConverter | Converter | a user converter carrying its own int hook) / add_input / use; "
+    "detailed_validation=b) | GenConverter | Converter | a user converter carrying its own int hook) / add_input / use / "
+    "drop (a converter is forgotten and collected, so addresses are reused); "
     "invariant after every step: every non-customised converter gives, for every battery input, the outcome of an "
     "independent fresh converter (separate process), and every converter the outcome it gave before the latest step. (C, thorough) real threads with a 1e-6 switch "
     "interval, fresh process per trial. non-trivial = schedule with >=1 switch inside the resolution window / history "
@@ -362,6 +363,13 @@ def child_history(ops: List[Any], fixed: List[Tuple[str, Any]], reference: List[
                 findings.append([["create-raises", "get_converter", op[1]], f"{type(e).__name__}: {e}", step])
         elif op[0] == "add_input":
             battery.append((op[1], op[2]))
+        elif op[0] == "drop" and convs:
+            # forget a converter (and let the collector reclaim it): later converters may reuse its address
+            import gc
+            i = op[1] % len(convs)
+            convs.pop(i)
+            memo = {(k if k < i else k - 1): v for k, v in memo.items() if k != i}
+            gc.collect()
         elif op[0] == "use" and convs:
             label, conv = convs[op[1] % len(convs)]
             name, j = battery[op[2] % len(battery)]
@@ -426,6 +434,11 @@ def _work_hist(args) -> dict:
         @rule(ci=st.integers(0, 100), bi=st.integers(0, 1000))
         def use(self, ci, bi):
             self.ops.append(["use", ci, bi])
+
+        @precondition(lambda self: sum(o[0] == "create" for o in self.ops) > sum(o[0] == "drop" for o in self.ops))
+        @rule(ci=st.integers(0, 100))
+        def drop(self, ci):
+            self.ops.append(["drop", ci])
 
         def teardown(self):
             if not any(o[0] == "create" for o in self.ops):
